@@ -212,6 +212,12 @@ U('ser.timestamp.end', 'impl ser::SerializeStruct for SerializeTimestamp', 'end'
   extra=['closure "|secs|"\n    -> (o: Option<chrono::Duration>)\n        ensures o == (if chrono::dur_ok(chrono::dur_ns(secs) + self.nanos as int) { o } else { None::<chrono::Duration> }), o matches Some(d) ==> chrono::dur_ns(d) == chrono::dur_ns(secs) + self.nanos as int'])
 
 
+# the methods serde_json::Value's own Serialize impl drives (the import direction of C18: to_value(&serde_json::Value))
+JSON_UNITS = set('ser.' + x for x in ['value.serialize_unit', 'value.serialize_bool', 'value.serialize_i64', 'value.serialize_u64', 'value.serialize_f64',
+                                      'value.serialize_str', 'value.serialize_seq', 'seq.serialize_element', 'seq.end', 'value.serialize_map',
+                                      'map.serialize_key', 'map.serialize_value', 'map.end', 'key.serialize_str', 'to_value'])
+
+
 def esc(s):
     return s.replace('\\', '\\\\').replace('"', '\\"')
 
@@ -225,7 +231,7 @@ def main():
         L = ['unit %s' % u['name'], 'source %s' % u['src']]
         if u['implas']:
             L.append('implas %s' % u['implas'])
-        L += ['props-safety C17', 'props-internal C17']
+        L += ['props-safety C17' + (' C18' if u['name'] in JSON_UNITS else ''), 'props-internal C17' + (' C18' if u['name'] in JSON_UNITS else '')]
         for a, b in u['sigs']:
             L.append('sig "%s" => "%s"' % (esc(a), esc(b)))
         for rid, a, b in u['subs']:
@@ -233,9 +239,10 @@ def main():
                 L.append('subw R6 "%s" => "%s"' % (esc(a), esc(b)))
             else:
                 L.append('sub %s "%s" => "%s"' % (rid, esc(a), esc(b)))
+        both = u['name'] in JSON_UNITS
         for lab, text in u['ensures']:
             text = re.sub(r'==> ((?:(?!==>).)*\bmatches\b.*)$', r'==> (\1)', text)
-            L.append('ensures [C17.%s.%s]\n    %s' % (u['name'][4:], lab, text))
+            L.append('ensures [%s.%s.%s]\n    %s' % ('C17+C18' if both else 'C17', u['name'][4:], lab, text))
         L += u['extra']
         open(os.path.join(OUT, u['name'] + '.vspec'), 'w').write('\n'.join(L) + '\n')
     print(len(units), 'contract files written')
